@@ -83,7 +83,7 @@ theorem withPath_walkRef {α β} {o : Opts} {e : Bool} {r : Root} {path : Bytes}
     {R : α → β → Prop}
     (hr : InvRoot e r)
     (hp : Spec.parsePointer path = some toks) (hne : toks ≠ [])
-    (hact : ∀ key, key ∈ toks → key ≠ [] → ActRef e key act f R) :
+    (hact : ∀ key, key ∈ toks → ActRef e key act f R) :
     WalkRef e r R (Spec.atParent (specOpts o) f (den r.con) toks) (withPath o r path act) := by
   have := withPath_refines (o := o) hr.1 hr.2 hp hne hact
   cases h : Spec.atParent (specOpts o) f (den r.con) toks with
@@ -144,7 +144,7 @@ theorem addAt_refines {o : Opts} {e : Bool} {r : Root} {val : Node} {path : Byte
     WalkRef e r (fun _ _ => True)
       (Spec.atParent (specOpts o) (Spec.addIn (specOpts o) (den val)) (den r.con) toks)
       (withPath o r path (actAdd o val)) :=
-  withPath_walkRef hr hp hne (fun key hmem _ => actAdd_ref hv (hq key hmem))
+  withPath_walkRef hr hp hne (fun key hmem => actAdd_ref hv (hq key hmem))
 
 theorem opAdd_eq_nonroot (o : Opts) (r : Root) (op : Op) (hp : op.path ≠ []) (he : o.ensure = false) :
     opAdd o r op =
@@ -253,7 +253,7 @@ theorem opRemove_refines_noallow {o : Opts} {e : Bool} {r : Root} {op : Op} {sop
     | cons t ts =>
       rw [spec_remove hk (by rw [hpath]; exact hp) (by simp [specOpts, ha]), opRemove_eq]
       exact liftWalk_refines acc (fun _ => ⟨.missing, by simp [ha]⟩)
-        (withPath_walkRef hr hp (by simp) (fun key _ _ => actRemove_ref ha))
+        (withPath_walkRef hr hp (by simp) (fun key _ => actRemove_ref ha))
 
 /-! ### replace -/
 
@@ -269,11 +269,11 @@ def actReplace (o : Opts) (val : Node) : Node → Node → Bytes → Outcome (No
       | .panic => .panic
 
 theorem actReplace_ref {o : Opts} {e : Bool} {val : Node} {key : Bytes} (hv : Inv e val)
-    (hk : QK e key = true) (hkey : key ≠ []) :
+    (hk : QK e key = true) :
     ActRef e key (actReplace o val) (Spec.replaceIn (specOpts o) (den val)) (fun _ _ => True) := by
   intro s pc hp hc
   have hset := conSet_refines (o := o) hp hc hv hk
-  have hget := conGet_refines (o := o) s hp hc hkey
+  have hget := conGet_refines (o := o) (key := key) s hp hc
   have hrel := replaceIn_getIn (specOpts o) (den val) (den pc) key
   cases h : Spec.replaceIn (specOpts o) (den val) (den pc) key with
   | unspec => trivial
@@ -348,7 +348,7 @@ theorem opReplace_refines {o : Opts} {e : Bool} {r : Root} {op : Op} {sop : Spec
       rw [this]
       exact liftWalk_refines acc (fun _ => ⟨_, rfl⟩)
         (withPath_walkRef hr hp (by simp)
-          (fun key hmem hkey => actReplace_ref hc (hq _ hp key hmem) hkey))
+          (fun key hmem => actReplace_ref hc (hq _ hp key hmem)))
 
 /-! ### move -/
 
@@ -387,17 +387,16 @@ def actMoveSrc (o : Opts) : Node → Node → Bytes → Outcome (Node × Node) :
     | .panic => .panic
     | .err e => .err e
     | .ok val =>
-      let val := if key = [] then (deepCopy o.esc val).1 else val
       match conRemove o con key with
       | .ok con' => .ok (con', val)
       | .err e => .err e
       | .panic => .panic
 
-theorem actMoveSrc_ref {o : Opts} {e : Bool} {key : Bytes} (hkey : key ≠ []) :
+theorem actMoveSrc_ref {o : Opts} {e : Bool} {key : Bytes} :
     ActRef e key (actMoveSrc o) (Spec.removeIn (specOpts o)) (fun val old => Inv e val ∧ den val = old) := by
   intro s pc hp hc
   have hrem := conRemove_refines (o := o) (key := key) hp hc
-  have hget := conGet_refines (o := o) s hp hc hkey
+  have hget := conGet_refines (o := o) (key := key) s hp hc
   have hrel := removeIn_getIn (specOpts o) (den pc) key
   cases h : Spec.removeIn (specOpts o) (den pc) key with
   | unspec => trivial
@@ -412,7 +411,7 @@ theorem actMoveSrc_ref {o : Opts} {e : Bool} {key : Bytes} (hkey : key ≠ []) :
     rw [hrel] at hget
     obtain ⟨n, hn, hn1, hn2⟩ := hget
     obtain ⟨pc', h1, h2, h3, h4⟩ := hrem
-    exact ⟨pc', n, by simp [actMoveSrc, hn, h1, hkey], h2, h3, h4, hn1, hn2⟩
+    exact ⟨pc', n, by simp [actMoveSrc, hn, h1], h2, h3, h4, hn1, hn2⟩
 
 /-- what `move` does with the result of its first walk -/
 def moveK (o : Opts) (r : Root) (op : Op) : Walk Node → Outcome Root
@@ -462,7 +461,7 @@ theorem opMove_refines {o : Opts} {e : Bool} {r : Root} {op : Op} {sop : Spec.Op
           have hw : WalkRef e r (fun val old => Inv e val ∧ den val = old)
               (Spec.atParent (specOpts o) (Spec.removeIn (specOpts o)) (den r.con) (t :: ts))
               (withPath o r f (actMoveSrc o)) :=
-            withPath_walkRef hr hpf (by simp) (fun key _ hkey => actMoveSrc_ref hkey)
+            withPath_walkRef hr hpf (by simp) (fun key _ => actMoveSrc_ref)
           cases hres : Spec.atParent (specOpts o) (Spec.removeIn (specOpts o)) (den r.con) (t :: ts) with
           | unspec => trivial
           | fail c =>
